@@ -62,7 +62,7 @@ int vnaproperty_import_yaml_from_string(vnaproperty_t **rootptr,
     yaml_parser_set_input_string(&parser,
 	(const unsigned char *)input, strlen(input));
     if (!yaml_parser_load(&parser, &document)) {
-	if (parser.error == YAML_MEMORY_ERROR) {
+	if (parser.error == YAML_MEMORY_ERROR || parser.problem == NULL) {
 	    errno = ENOMEM;
 	    _vnaproperty_yaml_error(&vyml, VNAERR_SYSTEM,
 		    "yaml_parser_load: %s: %s",
